@@ -237,6 +237,22 @@ Definition json_kind_decl (p : prim) : N :=
   | PDateTime => 12
   end.
 
+(* GetJsonDataType on one representative of every other shape of type; a panic or a missing entry is kind 0 *)
+Definition json_kind_enum : N := 12.
+Definition json_kind_flags : N := 20.
+Definition json_kind_record : N := 32.
+Definition json_kind_generic_param : N := 32.
+Definition json_kind_vector : N := 16.
+Definition json_kind_fixed_vector : N := 16.
+Definition json_kind_fixed_array : N := 16.
+Definition json_kind_array : N := 32.
+Definition json_kind_dyn_array : N := 32.
+Definition json_kind_map_string : N := 32.
+Definition json_kind_map_string_alias : N := 32.
+Definition json_kind_map_other : N := 16.
+Definition json_kind_alias_of_string : N := 8.
+Definition json_kind_alias_of_vector : N := 16.
+
 (* types.go:primitiveTypes aliases *)
 Definition prim_aliases : list (String.string * prim) :=
   [("byte"%string, PUint8); ("int"%string, PInt32); ("uint"%string, PUint32); ("long"%string, PInt64); ("ulong"%string, PUint64); ("float"%string, PFloat32); ("double"%string, PFloat64); ("complexfloat"%string, PCFloat32); ("complexdouble"%string, PCFloat64)].
